@@ -95,7 +95,7 @@ Proof.
   intros HA HS HP. unfold handle_data. destruct acc as [|a acc]; [contradiction|].
   assert (E : (max_size cfg <? m_size m) = false) by (apply Z.ltb_ge; lia).
   rewrite E, HP. cbn [negb].
-  destruct (deliver_to_multiple d (a :: acc) m (default_folder cfg)) as [results d'].
+  destruct (deliver_to_multiple d (filter (fun r => negb (over_quota cfg d m r)) (a :: acc)) m (default_folder cfg)) as [results d'].
   cbn [do_reply]. eexists. split; [reflexivity|]. now rewrite map_length.
 Qed.
 
@@ -146,26 +146,33 @@ Proof.
   - destruct (IH H) as [A B]. split; [|exact B]. now rewrite <- (spec_target_roles d d1 r HR).
 Qed.
 
+Lemma deliver_keys m folder : forall acc d, map fst (fst (deliver_to_multiple d acc m folder)) = acc.
+Proof.
+  induction acc as [|x l IH]; intros d0; [reflexivity|].
+  cbn [deliver_to_multiple]. destruct (deliver_message d0 x m folder) as [res d1].
+  specialize (IH d1). destruct (deliver_to_multiple d1 l m folder). cbn [fst map] in *. now f_equal.
+Qed.
+
 (** every message the model files for a transaction is filed in the store of
     exactly the address given in RCPT (role store iff enabled role address),
     in Spam iff the spam headers mark it, else in the default folder — for
     every configuration, database, recipient list and message *)
 Lemma filed_where cfg d acc m r st f :
   In (r, D_ok st f) (do_deliveries (handle_data cfg d acc m)) ->
-  In r acc /\ spec_target d r = Some st /\ f = spec_folder cfg m.
+  In r acc /\ over_quota cfg d m r = false /\ spec_target d r = Some st /\ f = spec_folder cfg m.
 Proof.
   unfold handle_data. destruct acc as [|a acc']; [cbn; tauto|].
   set (acc := a :: acc').
   destruct (max_size cfg <? m_size m); [cbn; tauto|].
   destruct (negb (m_parse_ok m)); [cbn; tauto|].
-  pose proof (deliveries_target m (default_folder cfg) acc d r st f) as T.
-  assert (K : map fst (fst (deliver_to_multiple d acc m (default_folder cfg))) = acc).
-  { clear. generalize d. induction acc as [|x l IH]; intros d0; [reflexivity|].
-    cbn [deliver_to_multiple]. destruct (deliver_message d0 x m (default_folder cfg)) as [res d1].
-    specialize (IH d1). destruct (deliver_to_multiple d1 l m (default_folder cfg)). cbn [fst map] in *. now f_equal. }
-  destruct (deliver_to_multiple d acc m (default_folder cfg)) as [results d'] eqn:ED.
+  set (L := filter (fun r => negb (over_quota cfg d m r)) acc).
+  pose proof (deliveries_target m (default_folder cfg) L d r st f) as T.
+  pose proof (deliver_keys m (default_folder cfg) L d) as K.
+  destruct (deliver_to_multiple d L m (default_folder cfg)) as [results d'] eqn:ED.
   cbn [do_deliveries fst] in *. intros H. destruct (T H) as [A B]. rewrite spam_routing in B.
-  repeat split; auto. rewrite <- K. apply in_map_iff. now exists (r, D_ok st f).
+  assert (RL : In r L).
+  { rewrite <- K. apply in_map_iff. now exists (r, D_ok st f). }
+  apply filter_In in RL as [R1 R2]. apply negb_true_iff in R2. auto.
 Qed.
 
 (** the role store is used only for an address that IS (byte for byte) the
@@ -174,7 +181,7 @@ Lemma role_store_exact cfg d acc m r e f :
   In (r, D_ok (RoleStore e) f) (do_deliveries (handle_data cfg d acc m)) ->
   e = r /\ In (mkRole r true) (roles d).
 Proof.
-  intros H. apply filed_where in H as [_ [T _]].
+  intros H. apply filed_where in H as [_ [_ [T _]]].
   unfold spec_target in T. destruct (extract_parts r) as [[n dom]|]; [|discriminate].
   destruct (is_role d r) eqn:E; [|discriminate]. injection T as <-. split; [reflexivity|].
   unfold is_role in E. apply existsb_exists in E as [ro [Hin Hr]].
@@ -186,43 +193,46 @@ Lemma user_store_exact cfg d acc m r n dom f :
   In (r, D_ok (UserStore n dom) f) (do_deliveries (handle_data cfg d acc m)) ->
   extract_parts r = Some (n, dom) /\ is_role d r = false.
 Proof.
-  intros H. apply filed_where in H as [_ [T _]].
+  intros H. apply filed_where in H as [_ [_ [T _]]].
   unfold spec_target in T. destruct (extract_parts r) as [[n' dom']|]; [|discriminate].
   destruct (is_role d r); [discriminate|]. now injection T as -> ->.
 Qed.
 
 (* ---- the 250/550 replies of DATA say what each delivery did ---- *)
 
-Lemma deliver_keys m folder : forall acc d, map fst (fst (deliver_to_multiple d acc m folder)) = acc.
-Proof.
-  induction acc as [|x l IH]; intros d0; [reflexivity|].
-  cbn [deliver_to_multiple]. destruct (deliver_message d0 x m folder) as [res d1].
-  specialize (IH d1). destruct (deliver_to_multiple d1 l m folder). cbn [fst map] in *. now f_equal.
-Qed.
-
 (** even with the same address given several times (the results map is keyed
-    by address and keeps the last value) every recipient's reply is 250 exactly
-    when ITS delivery filed the message — for every input *)
+    by address and keeps the last value) every recipient within quota is
+    answered 250 exactly when ITS delivery filed the message, every recipient
+    over quota is answered with a refusal and has no delivery — for every input *)
 Lemma replies_truthful cfg d acc m replies :
   do_reply (handle_data cfg d acc m) = DR_per replies ->
-  zip_outcomes replies (do_deliveries (handle_data cfg d acc m))
-    = map (fun kv => to_mo (snd kv)) (do_deliveries (handle_data cfg d acc m)) /\
-  map fst (do_deliveries (handle_data cfg d acc m)) = acc.
+  zip_outcomes (do_over_quota (handle_data cfg d acc m)) replies (do_deliveries (handle_data cfg d acc m))
+    = weave (over_quota cfg d m) acc (map (fun kv => to_mo (snd kv)) (do_deliveries (handle_data cfg d acc m))) /\
+  map fst (do_deliveries (handle_data cfg d acc m)) = filter (fun r => negb (over_quota cfg d m r)) acc /\
+  length replies = length acc.
 Proof.
   unfold handle_data. destruct acc as [|a acc']; [discriminate|].
   set (acc := a :: acc').
   destruct (max_size cfg <? m_size m); [discriminate|].
   destruct (negb (m_parse_ok m)); [discriminate|].
-  pose proof (all_results m (default_folder cfg) acc d) as AR.
-  pose proof (deliver_keys m (default_folder cfg) acc d) as K.
-  destruct (deliver_to_multiple d acc m (default_folder cfg)) as [results d'] eqn:ED.
-  cbn [do_reply do_deliveries fst] in *. intros H. injection H as <-.
-  split; [|exact K].
-  pose proof (reply_consistent (deliv_ok m (default_folder cfg) d) results AR results (fun kv H => H)) as E.
-  unfold acc in *. rewrite K in E. exact E.
+  set (over := over_quota cfg d m).
+  set (L := filter (fun r => negb (over r)) acc).
+  pose proof (all_results m (default_folder cfg) L d) as AR.
+  pose proof (deliver_keys m (default_folder cfg) L d) as K.
+  destruct (deliver_to_multiple d L m (default_folder cfg)) as [results d'] eqn:ED.
+  cbn [do_reply do_deliveries do_over_quota fst] in *. intros H. injection H as <-.
+  split; [|split; [exact K | unfold acc; cbn [length map]; f_equal; apply map_length]].
+  apply (zip_weave (deliv_ok m (default_folder cfg) d) results over AR acc results); [auto | exact K].
 Qed.
 
-(* ---- refutation witnesses ---- *)
+Lemma over_quota_meaning cfg d m r :
+  over_quota cfg d m r = true <-> quota_enabled cfg = true /\ mailbox_usage d r + m_size m > quota_limit cfg.
+Proof.
+  change (over_quota cfg d m r) with (spec_over_quota cfg d m r).
+  unfold spec_over_quota. rewrite andb_true_iff, Z.ltb_lt. split; intros [A B]; split; auto; lia.
+Qed.
+
+(* ---- witnesses ---- *)
 
 Definition w_cfg (ru qe : bool) (ql : Z) : config :=
   mkConfig (S_ "INBOX") qe ql [] ru 1000 10.
@@ -230,18 +240,13 @@ Definition w_db : db :=
   mkDb [mkUser (S_ "bob") (S_ "a.org") true] [mkRole (S_ "support@a.org") true] [].
 Definition w_msg : message := mkMsg 100 [] true.
 
-(** quota enabled, limit 10 bytes, message of 100 bytes: the documented policy
-    refuses, raven files the message (and logs "quota exceeded") *)
-Lemma refuted_quota :
-  exists cfg d addrs m, cfg_ok cfg /\ wf_db d /\
-    classify cfg d addrs m = Some K_quota_not_enforced /\
-    fst (spec_txn cfg d addrs m) = [Refused WhyQuota] /\
-    txn_outcomes (run_txn_addr cfg d addrs m) = [MFiled (UserStore (S_ "bob") (S_ "a.org")) (S_ "INBOX")] /\
-    do_quota_logged (to_data (run_txn_addr cfg d addrs m)) = addrs.
-Proof.
-  exists (w_cfg false true 10), w_db, [S_ "bob@a.org"], w_msg.
-  split; [discriminate|]. split; [reflexivity|]. vm_compute. auto.
-Qed.
+(** quota enabled, limit 10 bytes, message of 100 bytes: refused with 552, not filed *)
+Lemma quota_example :
+  txn_outcomes (run_txn_addr (w_cfg false true 10) w_db [S_ "bob@a.org"; S_ "support@a.org"] w_msg) = [MRefused; MRefused] /\
+  txn_outcomes (run_txn_addr (w_cfg false true 100) w_db [S_ "bob@a.org"; S_ "support@a.org"] w_msg)
+    = [MFiled (UserStore (S_ "bob") (S_ "a.org")) (S_ "INBOX"); MFiled (RoleStore (S_ "support@a.org")) (S_ "INBOX")] /\
+  msgs (do_db (to_data (run_txn_addr (w_cfg false true 10) w_db [S_ "bob@a.org"] w_msg))) = [].
+Proof. vm_compute. auto. Qed.
 
 (* ---- regression: the recipient test before the fix C17-3 (local part only, no role mailboxes) ---- *)
 
